@@ -87,6 +87,10 @@ def value_for(ex, sym, i, d):
     return node_like(ex, f'{sym}@{i}')
 
 
+# attributes that are lists in every node class that has them (Select.targets, Function/Operation.args, Identifier.parts, ...)
+LIST_ATTRS = {'targets'}
+
+
 def node_like(ex, label):
     """value of a nonterminal whose type contract is 'some well-formed value of that rule': attributes, subscripts, calls of its
     methods, iteration and operators are total and yield values of the same kind (the rule's own action is a separate obligation)"""
@@ -104,6 +108,10 @@ def install_oracles(ex):
 
     def oracle(ex_, obj, attr):
         if getattr(obj, 'any_attr', False):
+            if attr in LIST_ATTRS:
+                # type contract: these attributes of statement / expression nodes hold lists (of unknown length) of nodes
+                seq = SymSeq(ex_.fresh_name(f'{obj.label}.{attr}'), lambda e, l: node_like(e, l), prov='param')
+                return seq
             return node_like(ex_, f'{obj.label}.{attr}')
         return orig(ex_, obj, attr)
     ex.field_oracle = oracle
@@ -264,6 +272,7 @@ REPLAY_HINTS = {
     'kw_parameter': ['select 1'],
     'result_column': ["select 1 as ''", "select 1 ''", 'select 1 as ""', 'select 1 ""'],
     'from_table_aliased': ['select * from t as ""', 'select * from t ""'],
+    'from_table': ['select * from (select a from t) as s(x, y)', 'select * from (select a, b from t) as s(x)', 'select * from (select a from t) as s(x, y, z)', 'select * from (select 1 union select 2) as s(x)'],
     'set': ['SET names x', 'SET x'],
 }
 
@@ -409,6 +418,82 @@ def api_obligations(rep):
         rep.undecided('C02.reporter.process', 'pysym', v.detail, function='mindsdb_sql:ErrorHandling.process', clause=clause)
 
 
+# ------------------------------------------------------------------ lexer token functions
+def token_function_obligations(rep):
+    """every token function of every lexer class, for every text of the language of its own pattern(s) as token value: returns (its token or None)
+    or raises LexError. The pattern is translated to a z3 regular expression (vlib/rez3.py), str.strip/lstrip/rstrip are modelled exactly."""
+    from sly.lex import LexError
+    from vlib import rez3
+    for dname in lrtab.DIALECTS:
+        d = lrtab.load(dname)
+        L = d.Lexer
+        for name, f in sorted(L._token_funcs.items()):
+            pat = getattr(f, 'pattern', None)
+            fn = f'{f.__module__}:{f.__qualname__}'
+            oid = f'C02.lex.action.{dname}.{name}'
+            clause = 'forall token values matched by the pattern(s) of the function: returns or raises LexError (no internal exception)'
+            if not isinstance(pat, str):
+                continue
+            try:
+                R = rez3.to_z3(pat, getattr(L, 'reflags', 0))
+            except rez3.RegexOutside as e:
+                rep.undecided(oid, 'pysym', f'pattern {pat!r} outside the translated subset: {e}', function=fn, clause=clause)
+                continue
+
+            def make_args(ex, R=R, L=L):
+                ex.exact_strip = True
+                selfo = SymObj({L}, 'self', prov='param')
+                selfo.known_not_none = True
+                selfo.fields.update(lineno=pysym.mk_int('lineno'), index=pysym.mk_int('index'), text=pysym.mk_str('text'))
+                t = SymObj(None, 't', prov='param')
+                t.known_not_none = True
+                val = pysym.mk_str('t.value')
+                ex.assume(z3.InRe(val.t, R))
+                t.fields.update(value=val, index=pysym.mk_int('t.index'), lineno=pysym.mk_int('t.lineno'), type=pysym.mk_str('t.type'), end=pysym.mk_int('t.end'))
+                ex.path_state['val'] = val
+                return [selfo, t], {}
+            witness = {}
+
+            def post(ex, o, witness=witness):
+                if o.kind == 'return' or (o.kind == 'raise' and isinstance(o.value, type) and issubclass(o.value, LexError)):
+                    return None
+                ok, m = ex.valid(z3.BoolVal(False), pc=o.pc)
+                w = None
+                try:
+                    w = m.eval(z3.String('t.value'), model_completion=True).as_string() if m is not None else None
+                except Exception:
+                    pass
+                witness['value'] = w
+                return f'raises {getattr(o.value, "__name__", o.value)} for the token text {w!r}'
+            ex = pysym.Executor()
+            try:
+                v = pysym.verify(f.__module__, f.__qualname__, make_args, post, ex=ex)
+            except Exception as e:
+                rep.undecided(oid, 'pysym', f'{type(e).__name__}: {e}'[:200], function=fn, clause=clause)
+                continue
+            if v.status == PROVED:
+                rep.proved(oid, 'pysym', v.detail, function=fn, clause=clause, seconds=v.seconds)
+            elif v.status == FAILED:
+                w = witness.get('value')
+                rp = None
+                if w is not None:
+                    try:
+                        list(L().tokenize(w))
+                        rp = {'input': w, 'dialect': dname, 'fires': False, 'observed': 'tokenized'}
+                    except LexError as e:
+                        rp = {'input': w, 'dialect': dname, 'fires': False, 'observed': f'LexError: {e}'[:100]}
+                    except Exception as e:
+                        rp = {'input': w, 'dialect': dname, 'fires': True, 'observed': f'{type(e).__name__}: {e}'[:150], 'expected': 'tokens or LexError'}
+                if rp is not None and rp['fires']:
+                    rep.failed(oid, 'pysym', v.detail, function=fn, clause=clause, cex=v.cex, replay=rp, seconds=v.seconds)
+                else:
+                    # the language of the pattern over-approximates the texts the master regex can hand to the function: a counterexample that
+                    # does not reproduce through tokenize() is not a violation
+                    rep.undecided(oid, 'pysym', f'{v.detail}; the counterexample does not reproduce through tokenize(): {rp}', function=fn, clause=clause)
+            else:
+                rep.undecided(oid, 'pysym', v.detail, function=fn, clause=clause)
+
+
 # ------------------------------------------------------------------ bounded
 def bounded(rep, tier):
     from mindsdb_sql import parse_sql
@@ -482,5 +567,6 @@ def check(rep, tier):
     api_obligations(rep)
     synthetic_obligations(rep)
     action_obligations(rep, tier)
+    token_function_obligations(rep)
     bounded(rep, tier)
     rep.notes.append('Per-action exception contracts; see evidence for the actions outside the engine\'s reach.')
